@@ -733,6 +733,8 @@ func main() {
 	w("def automateBody : List String := %s", leanList(stmtSrcs(findFunc(playerR, "playerRunner", "automate"))))
 	w("def playerRequestMove : List String := %s", leanList(stmtSrcs(findFunc(playerR, "playerRunner", "requestMove"))))
 	conds2, acts2 := hasActionChain(findFunc(botR, "botRunner", "requestMove"))
+	w("/-- botRunner.UpdateTableState, statement by statement (who reacts, the staleness filter) -/")
+	w("def botUpdate : List String := %s", leanList(stmtSrcs(findFunc(botR, "botRunner", "UpdateTableState"))))
 	w("def botRequestConds : List String := %s", leanList(conds2))
 	w("def botRequestActs : List String := %s", leanList(acts2))
 	w("def botRequestAI : List String := %s", leanList(stmtSrcs(findFunc(botR, "botRunner", "requestAI"))))
